@@ -26,6 +26,8 @@ func c13sSQL(tok string, v int) *proto.Statement {
 		return &proto.Statement{Sql: []string{"INSERT INTO t(tok) VALUES(NULL)", "INSERT INTO u(k) VALUES(0)", "INSERT INTO t(tok) VALUES(-1)", "INSERT INTO t(tok) VALUES(777),(778),(NULL)"}[v%4]}
 	case tok == "pf":
 		return &proto.Statement{Sql: []string{"INSERT INTO nosuch(tok) VALUES(1)", "INSERT INTO t(nocol) VALUES(1)", "INSERT INTO t VALUES(", "SELEC 1"}[v%4]}
+	case tok == "ar":
+		return &proto.Statement{Sql: []string{"INSERT OR ROLLBACK INTO t(tok) VALUES(NULL)", "INSERT OR ROLLBACK INTO u(k) VALUES(0)"}[v%2]}
 	case tok == "sp":
 		return &proto.Statement{ForceQuery: true, Sql: []string{"INSERT INTO nosuch(tok) VALUES(424242) RETURNING tok", "INSERT INTO t(tok) VALUES(424242) RETURNING nosuchcol"}[v%2]}
 	case tok == "sa":
@@ -109,8 +111,11 @@ func TestVerifC13(t *testing.T) {
 			case p < 52:
 				next++
 				toks = append(toks, "R"+strconv.Itoa(next))
-			case p < 58:
+			case p < 55:
 				toks = append(toks, "xf")
+				fails = true
+			case p < 58:
+				toks = append(toks, "ar")
 				fails = true
 			case p < 62:
 				toks = append(toks, []string{"sp", "sa"}[r.Intn(2)])
